@@ -28,7 +28,15 @@ RULE = ("real histories (about 35 operations each after an initial sync) over a 
         "image after every retention pass; every file of level >= 1 = ltx.Compactor merge of the archived L0 files of its "
         "range (pages, commit, range, newest input's timestamp); Restore(TXID=k) from the replica = restore of the "
         "archived L0 chain 1..k = source image recorded at sync k; Restore(Timestamp=T) image = state of the chosen TXID; "
-        "mtime = header timestamp for every new file. distinct = distinct (entry,input); non-trivial = history of more "
+        "mtime = header timestamp for every new file. C15 (every second c15 history runs on the real clock and starts "
+        "with syncs, a real PASSIVE checkpoint through DB.Checkpoint, more syncs that stay in the WAL, a DB.Snapshot / "
+        "snapshot-level CompactDB, more syncs, 2-4 ms apart; real-clock c15 histories also checkpoint at random): the "
+        "harness records when each TXID was replicated (L0 header timestamp, which must lie inside the wall-clock window "
+        "of its sync) and checks on EVERY file of every level including 9, when written and in the final listing, that "
+        "it is stamped no earlier than the replication time of its newest transaction (store_ts_hyp_ok: the same plus "
+        "ts_hyp of ts_exact on the real listing, in Coq); timestamp queries additionally at / +-1 ms around every "
+        "replication time and every checkpoint / snapshot time, each answer compared with the record: the plan's end "
+        "was replicated before T, and with all L0 files present it is the newest such TXID. distinct = distinct (entry,input); non-trivial = history of more "
         "than 4 operations / listing of more than 3 files / more than 3 queries.")
 
 
@@ -136,10 +144,15 @@ def store_phase(v, pid, focus, n_quick, n_thorough, own_entries, own_sig_prefixe
         elif sig.startswith("harness/"):
             v.violation(pid + "/" + sig, "the harness could not drive the implementation: " + iv["detail"], r, False)
     oracle_bad = [m for m in mism if m["entry"] in own_entries and m["entry"] != "store_run" and m["entry"] != "store_ts_plan"]
-    for m in oracle_bad[:1]:
+    seen_entries = set()
+    for m in oracle_bad:  # the first failing case of every oracle entry
+        if m["entry"] in seen_entries:
+            continue
+        seen_entries.add(m["entry"])
         sig, text, found = classify(m)
         own_found = True
-        v.violation(sig, "%s (%d such cases); case: %s" % (text, len(oracle_bad), m["case"][:1500]),
+        nsame = len([x for x in oracle_bad if x["entry"] == m["entry"]])
+        v.violation(sig, "%s (%d such cases); case: %s" % (text, nsame, m["case"][:1500]),
                     {"case_lines": C.case_with_defs(cases, m["line"]), "spec_says": m["model"], "how": "runner on case_lines"}, found)
     model_bad = [m for m in mism if m["entry"] in own_entries and m["entry"] in ("store_run", "store_ts_plan")]
     if model_bad:
